@@ -11,6 +11,7 @@ def step (line : String) : String :=
   | "c02" :: args => PFile.runC02 args
   | "c03" :: args => PFile.runC03 args
   | "c04" :: args => PFile.runC04 args
+  | "c06" :: args => PFile.runC06 args
   | "bin" :: args => Camx.runBin args
   | _ => "err bad-stream"
 
